@@ -3,11 +3,11 @@ CONSTANTS
   Patterns <- PDeep
   Ids = {"i1", "i2", "i3"}
   Haystacks <- ProbesDeep
-  KeepSets = {{"i1", "i2"}, {"i3"}}
-  Limits = {1, 4}
+  KeepSets = {{"i1", "i2"}}
+  Limits = {4}
   Levels = {99}
   IgnoreCase = {FALSE}
   MaxOps = 5
-VIEW View
+VIEW ViewKinds
 INVARIANTS FindCorrect LenCorrect GetCorrect TreeInv RemoveReturnsValue CacheTransparent CacheBudget Emit
 CHECK_DEADLOCK FALSE
